@@ -6,3 +6,4 @@ pub mod gen;
 pub mod model;
 pub mod project;
 pub mod rename;
+pub mod signature;
